@@ -475,7 +475,13 @@ impl Harness for Framing {
         }
         let w = wire.0.borrow();
         if w.consumed != stream.len() {
-            xplore::bug!("accounting: consumed {} of {}", w.consumed, stream.len());
+            // every frame was accounted for and the connection reported end-of-stream, yet it never
+            // took the last bytes off the transport (e.g. it offered the transport an empty buffer
+            // and mistook the answer for EOF)
+            return Verdict::fail(
+                "framing:end-of-stream-reported-with-unread-bytes",
+                format!("{}: stream {} ; end-of-stream was reported after {} of {} bytes had been read from the transport", t.name, show(&stream), w.consumed, stream.len()),
+            );
         }
         if w.read_polls > frames.len() + 1 {
             cx.goal("frame-split-across-reads-or-polls");
